@@ -3,14 +3,14 @@
 # Confirms in a fresh scratch worktree of /repo HEAD: demo passes without the change, the change applies and
 # builds, make check still passes 15/15, demo fails with the change.  Removes the worktree afterwards.
 id=$1; cmd=$2
-src=/tmp/seed_$id/SEED
+P=${SEEDPREFIX:-/tmp/seed_}; src=$P$id/SEED
 D=/tmp/vfy_$id
 git -C /repo worktree remove --force $D 2>/dev/null
 /verif/tool/scratch.sh $D HEAD >/dev/null 2>&1 || { echo "scratch build failed"; exit 2; }
 cp -r $src $D/SEED
-for f in $D/SEED/*.sh $D/SEED/*.c; do [ -f "$f" ] && sed -i "s#/tmp/seed_$id#$D#g" "$f"; done
+for f in $D/SEED/*.sh $D/SEED/*.c; do [ -f "$f" ] && sed -i "s#$P$id#$D#g" "$f"; done
 cd $D
-c=$(echo "$cmd" | sed "s#/tmp/seed_$id#$D#g")
+c=$(echo "$cmd" | sed "s#$P$id#$D#g")
 echo "== demo on unchanged code"; sh -c "$c" > SEED/out_clean.txt 2>&1; rc0=$?; tail -3 SEED/out_clean.txt; echo "rc=$rc0"
 git apply SEED/patch.diff || { echo "PATCH DOES NOT APPLY"; cd /; git -C /repo worktree remove --force $D; exit 2; }
 make -j16 > SEED/build.txt 2>&1 || { echo "BUILD FAILED"; tail -5 SEED/build.txt; }
